@@ -317,6 +317,8 @@ macro_rules! backend_impl {
                 pub inputs: FheUintPrepared<DeviceBuf<BE>, u8, BE>,
                 pub ct_a: GLWE<Vec<u8>>,
                 pub ct_b: GLWE<Vec<u8>>,
+                pub shared_ksk: poulpy_core::layouts::prepared::GLWESwitchingKeyPrepared<DeviceBuf<BE>, BE>,
+                pub shared_atk: poulpy_core::layouts::prepared::GLWEAutomorphismKeyPrepared<DeviceBuf<BE>, BE>,
                 pub glwe_infos: GLWELayout,
                 pub ggsw_infos: GGSWLayout,
                 pub bdd: Mutex<Option<&'static BddCtx>>,
@@ -376,6 +378,42 @@ macro_rules! backend_impl {
                     module.glwe_encrypt_zero_sk(&mut ct_a, &sk_prep, &genc, &mut source_xe, &mut source_xa, scratch.borrow());
                     module.glwe_encrypt_zero_sk(&mut ct_b, &sk_prep, &genc, &mut source_xe, &mut source_xa, scratch.borrow());
                 }
+                // evaluation keys shared read-only by SHARED workloads
+                let (shared_ksk, shared_atk) = {
+                    use poulpy_core::layouts::{
+                        GLWEAutomorphismKey, GLWEAutomorphismKeyPreparedFactory, GLWESwitchingKey, GLWESwitchingKeyLayout,
+                        GLWESwitchingKeyPreparedFactory,
+                    };
+                    use poulpy_core::{GLWEAutomorphismKeyEncryptSk, GLWESwitchingKeyEncryptSk};
+                    let ksk_infos = GLWESwitchingKeyLayout {
+                        n: Degree(n),
+                        base2k: Base2K(12),
+                        k: TorusPrecision(38),
+                        dnum: Dnum(3),
+                        dsize: Dsize(1),
+                        rank_in: Rank(rank),
+                        rank_out: Rank(rank),
+                    };
+                    let mut ksk: GLWESwitchingKey<Vec<u8>> = GLWESwitchingKey::alloc_from_infos(&ksk_infos);
+                    let kenc = EncryptionLayout::new_from_default_sigma(ksk_infos).unwrap();
+                    module.glwe_switching_key_encrypt_sk(&mut ksk, &sk_glwe, &sk_glwe, &kenc, &mut source_xe, &mut source_xa, scratch.borrow());
+                    let mut kp = module.glwe_switching_key_prepared_alloc_from_infos(&ksk);
+                    module.glwe_switching_key_prepare(&mut kp, &ksk, scratch.borrow());
+                    let atk_infos = GLWEAutomorphismKeyLayout {
+                        n: Degree(n),
+                        base2k: Base2K(12),
+                        k: TorusPrecision(38),
+                        rank: Rank(rank),
+                        dnum: Dnum(3),
+                        dsize: Dsize(1),
+                    };
+                    let mut atk: GLWEAutomorphismKey<Vec<u8>> = GLWEAutomorphismKey::alloc_from_infos(&atk_infos);
+                    let aenc = EncryptionLayout::new_from_default_sigma(atk_infos).unwrap();
+                    module.glwe_automorphism_key_encrypt_sk(&mut atk, 5, &sk_glwe, &aenc, &mut source_xe, &mut source_xa, scratch.borrow());
+                    let mut ap = module.glwe_automorphism_key_prepared_alloc_from_infos(&atk);
+                    module.glwe_automorphism_key_prepare(&mut ap, &atk, scratch.borrow());
+                    (kp, ap)
+                };
                 let c: &'static Ctx = Box::leak(Box::new(Ctx {
                     n,
                     rank,
@@ -385,6 +423,8 @@ macro_rules! backend_impl {
                     inputs,
                     ct_a,
                     ct_b,
+                    shared_ksk,
+                    shared_atk,
                     glwe_infos,
                     ggsw_infos,
                     bdd: Mutex::new(None),
@@ -668,7 +708,7 @@ macro_rules! backend_impl {
                             let mut r = Rng::new(crate::prng::mix(spec.ops_seed, 0x5A, t as u64));
                             (0..spec.ops_per_thread)
                                 .map(|_| {
-                                    let k = r.below(if spec.with_prepare { 6 } else { 5 });
+                                    let k = r.below(if spec.with_prepare { 10 } else { 9 });
                                     (k, r.next())
                                 })
                                 .collect()
@@ -717,6 +757,34 @@ macro_rules! backend_impl {
                                     let mut xe = Source::new([6u8; 32]);
                                     m2.glwe_encrypt_zero_sk(&mut ct, &c.sk_prep, &enc, &mut xe, &mut xa, scratch.borrow());
                                     crate::util::fnv(&ct.data().data)
+                                }
+                                5 => {
+                                    use poulpy_core::GLWEKeyswitch;
+                                    let mut res: GLWE<Vec<u8>> = GLWE::alloc_from_infos(&c.glwe_infos);
+                                    let src = if arg & 1 == 0 { &c.ct_a } else { &c.ct_b };
+                                    c.module.glwe_keyswitch(&mut res, src, &c.shared_ksk, scratch.borrow());
+                                    crate::util::fnv(&res.data().data)
+                                }
+                                6 => {
+                                    use poulpy_core::GLWEExternalProduct;
+                                    let mut res: GLWE<Vec<u8>> = GLWE::alloc_from_infos(&c.glwe_infos);
+                                    let bit = c.inputs.get_bit((*arg % 8) as usize);
+                                    c.module.glwe_external_product(&mut res, &c.ct_b, &bit, scratch.borrow());
+                                    crate::util::fnv(&res.data().data)
+                                }
+                                7 => {
+                                    use poulpy_core::GLWEAutomorphism;
+                                    let mut res: GLWE<Vec<u8>> = GLWE::alloc_from_infos(&c.glwe_infos);
+                                    c.module.glwe_automorphism(&mut res, &c.ct_a, &c.shared_atk, scratch.borrow());
+                                    crate::util::fnv(&res.data().data)
+                                }
+                                8 => {
+                                    use poulpy_core::GLWENormalize;
+                                    let mut infos = c.glwe_infos;
+                                    infos.base2k = Base2K(9 + (*arg % 5) as u32);
+                                    let mut res: GLWE<Vec<u8>> = GLWE::alloc_from_infos(&infos);
+                                    c.module.glwe_normalize(&mut res, &c.ct_a, scratch.borrow());
+                                    crate::util::fnv(&res.data().data)
                                 }
                                 _ => {
                                     let b = b.unwrap();
